@@ -15,3 +15,32 @@ def run(ctx):
     scale = 1 if ctx.tier == "quick" else 10
     engine.import_family(ctx, random.Random(ctx.seed + 5), 8 * scale, 24 * scale, only=("scope_violation_through_connection",),
                          what="T3 correspondence: thread scope through import connections, whole validator vs Coq model (Model/Imports.v)")
+    # a `context` names a thread group and nothing inside it: the same documents (conformant ones and single scope
+    # faults) with a path appended to one context reference, in the spelling the document uses, must be rejected
+    import copy, impl, scenario as S, mutators as M
+    rng = random.Random(ctx.seed + 6)
+    docs = []
+    for k in range(30 * scale):
+        if k % 3 == 2:
+            s, name, owner, desc = M.mutate(rng, only=OWNERS, threads=True)
+        else:
+            s, name, desc = S.gen_valid(rng, threads=True), None, None
+        sp = ["id", "alias", "mixed"][k % 3] if name not in M.FORCE_ID_SPELLING else "id"
+        doc = S.render(s, random.Random(rng.randrange(1 << 30)), sp, False, False)
+        spots = [(coll, i) for coll in ("actions", "checkpoints", "thread_groups", "object_promises") for i, e in enumerate(doc.get(coll) or [])
+                 if isinstance(e, dict) and isinstance(e.get("context"), str)]
+        rng.shuffle(spots)
+        for coll, i in spots[:3]:
+            d = copy.deepcopy(doc)
+            suffix = rng.choice([".x", ".$object", ".0", ".spawn", ".object_promise"])
+            d[coll][i]["context"] += suffix
+            docs.append((d, coll, i, d[coll][i]["context"], name))
+    pool = impl.Pool(ctx)
+    res = pool.validate_many([d[0] for d in docs])
+    pool.close()
+    acc = [(d, r) for d, r in zip(docs, res) if r["outcome"] == "accept"]
+    for d, r in acc[:2]:
+        ctx.violation({"what": "a context reference followed by a path is accepted (the entity is then bound to no thread group the scope rules know)",
+                       "document": d[0], "position": "%s[%d].context" % (d[1], d[2]), "context": d[3], "underlying_fault": d[4]})
+    ctx.coverage["context_with_path"] = {"documents": len(docs), "accepted": len(acc), "raised": sum(1 for r in res if r["outcome"] == "raise")}
+    ctx.coverage["evaluations"] = ctx.coverage.get("evaluations", 0) + len(docs)
